@@ -81,7 +81,29 @@ CHECK_DEADLOCK FALSE
     return res
 
 
+def run_static(work, vh, prop, sc, tier, seed, focus):
+    """A scenario whose programs are given (not generated): grouped by the stores they run on."""
+    programs = sc["static_programs"](seed)
+    allfails, events, checked = [], 0, 0
+    groups = {}
+    for p in programs:
+        groups.setdefault(tuple(p.pop("stores")), []).append(p)
+    t0 = time.time()
+    for stores, ps in groups.items():
+        tf, ev, dt = vlib.execute(work, vh, sc["name"] + "-" + "".join(stores), ps, list(stores), sc["obs"], seed)
+        v = vlib.validate(work, sc["name"] + "-" + "".join(stores), tf, sc.get("focus", focus))
+        allfails += v["fails"]
+        events += ev
+        checked += v["stats"]["checked"]
+        for p in ps:
+            p["nstores"] = len(stores)
+    log("scenario %s: %d static programs, %d events, %d failing traces (%.1fs)" % (sc["name"], len(programs), events, len(allfails), time.time() - t0))
+    return programs, events, {"fails": allfails, "stats": {"checked": checked}}
+
+
 def run_scenario(work, vh, prop, sc, tier, seed, focus):
+    if "static_programs" in sc:
+        return run_static(work, vh, prop, sc, tier, seed, focus)
     num = sc["num"][0 if tier == "quick" else 1]
     depth = sc["depth"][0 if tier == "quick" else 1]
     cat = vlib.catalogue(work, vh, sc["name"], sc["contents"], sc["algs"], seed, cfg=sc_cfg(sc),
@@ -147,14 +169,14 @@ def histories(prop, tier, seed, work, scenarios, level_text, rule, nontrivial_op
             mc_note.append("%s: depth<=%d, %d distinct states, %d transitions, %.0fs" % (sc["name"], d, res["distinct"], res["states"], res["wall"]))
         programs, events, v = run_scenario(work, vh, prop, sc, tier, seed, focus)
         total_events += events
-        total_traces += len(programs) * len(sc["stores"])
+        total_traces += sum(p.get("nstores", len(sc.get("stores", [1]))) for p in programs)
         checked += v["stats"]["checked"]
         for p in programs:
             key = json.dumps(p["ops"], sort_keys=True)
             if any(o["op"] in nontrivial_ops for o in p["ops"]):
                 nontriv.add(key)
         if programs and len(samples) < 3:
-            samples.append({"scenario": sc["name"], "stores": sc["stores"], "program": programs[0]["ops"][:12]})
+            samples.append({"scenario": sc["name"], "stores": sc.get("stores", "per program"), "program": programs[0]["ops"][:12]})
         for f in v["fails"]:
             path = failure_replay(prop, sc, programs, f, seed)
             violations.append((path, f))
@@ -212,6 +234,8 @@ def c02(prop, tier, seed, work):
     scs = [
         dict(name="push", profile="push", contents=["m1", "m2", "x1", "a1"], algs=["sha256"], depth=(14, 24), num=(40, 400),
              stores=STORES3, obs=["sess"], mc_contents=["m1", "a1"], mc_depth=(5, 6)),
+        dict(name="push2", profile="push", contents=["m3", "x3", "m4", "m5", "x2"], algs=["sha256", "sha512"], depth=(18, 30), num=(25, 300),
+             stores=STORES3, obs=["ranges"]),
     ]
     return histories(prop, tier, seed, work, scs,
                      "trace validation of TLC-generated histories against Registry + exhaustive model check",
@@ -240,6 +264,8 @@ def c01(prop, tier, seed, work):
     scs = [
         dict(name="upload", profile="upload", contents=["m1", "m2", "b0", "b4"], algs=["sha256", "sha512"], depth=(18, 30), num=(30, 300),
              stores=STORES3, obs=["sess"], mc_contents=["m1"], mc_depth=(4, 5)),
+        dict(name="pull", profile="pull", contents=["m1", "m3", "x4", "x3"], algs=["sha256", "sha512"], depth=(20, 34), num=(20, 250),
+             stores=STORES3, obs=[]),
         dict(name="upload384", profile="upload", contents=["m1", "b0"], algs=["sha256", "sha384", "sha512"], depth=(18, 30), num=(15, 200),
              stores=["mem", "dir"], obs=["sess"]),
     ]
@@ -293,7 +319,7 @@ def c08(prop, tier, seed, work):
 
 CHECKS["C08"] = c08
 
-GC_A = ["m1", "m2", "ml", "x1", "x2", "b3"]                          # aliasing, nesting, shared and dangling blobs
+GC_A = ["m1", "ml", "x4", "x1", "b3"]                          # aliasing, nesting, shared and dangling blobs
 GC_B = ["m1", "m2", "x1", "a1", "a3", "a4", "a6", "a7", "b3"]        # referrers: of images, of referrers, of an index, dangling
 
 
@@ -302,7 +328,7 @@ def gc_scenarios(tier, stores):
     for u in (False, True):
         for g in (False, True):
             scs.append(dict(name="gcA-%s%s" % ("U" if u else "u", "G" if g else "g"), profile="gc", contents=GC_A, algs=["sha256"],
-                            depth=(24, 40), num=(12, 150), stores=stores, obs=[], nrepos=1,
+                            depth=(24, 40), num=(25, 200), stores=stores, obs=[], nrepos=1,
                             cfg={"untagged": u, "dangling": False, "withSubj": False, "grace": g, "emptyRepo": False}))
     for u in (False, True):
         for d in (False, True):
@@ -355,10 +381,36 @@ RECONF = [
 ]
 
 
+def foreign_programs(seed):
+    """Static programs for pre-existing directories that are not built from the catalogue (testdata/testrepo with
+    fallback-tag referrers to convert, testdata/corrupt): every request class, collections, restart."""
+    def blob(r, c, w="mono"):
+        return {"op": "PushBlob", "repo": r, "dig": "sha256:" + c, "chunk": {"c": c, "p": "all"}, "which": w, "alg": ""}
+
+    def manput(r, c, ref):
+        return {"op": "ManPut", "repo": r, "ref": ref, "ctype": "", "ctvar": "", "body": c, "lenKnown": True, "dparam": ""}
+    ops = [{"op": "ProbeAll", "repo": "r1"}, blob("r1", "b1"), blob("r1", "b2", "chunked"), manput("r1", "m1", {"k": "tag", "v": "t1"}),
+           {"op": "UpPost", "repo": "r1", "dig": "", "alg": "", "mount": "sha256:b1", "from": "r2", "chunk": {"c": "", "p": ""}},
+           {"op": "ManDel", "repo": "r1", "ref": {"k": "raw", "v": "v1"}}, {"op": "ManDel", "repo": "r1", "ref": {"k": "raw", "v": "index"}},
+           {"op": "BlobDel", "repo": "r1", "dig": "sha256:b1"}, {"op": "TagsList", "repo": "r1", "n": "", "ni": 0, "nc": "none", "last": 0, "method": "GET"},
+           {"op": "GC", "repo": "r1"}, {"op": "GCPass"}, {"op": "ProbeAll", "repo": "r1"}, {"op": "Restart"}, {"op": "ProbeAll", "repo": "r1"},
+           blob("r2", "b1"), manput("r2", "m1", {"k": "tag", "v": "t2"}), {"op": "GC", "repo": "r2"}, {"op": "Restart"}]
+    progs = []
+    for pre in ("testrepo", "corrupt"):
+        for k, over in enumerate(({"readOnly": True}, {"readOnly": True, "push": False}, {}, {"delete": False, "blobDelete": False})):
+            cfg = dict(DEFAULT_CFG)
+            cfg.update(over)
+            progs.append({"id": "foreign-%s-%d" % (pre, k), "cfg": cfg, "contents": ["m1"], "algs": ["sha256"], "ntags": 3,
+                          "repos": ["pre/existing", "other"], "seed": seed, "tagstyle": 0, "pre": pre, "sentinel": False, "ops": ops,
+                          "stores": ["dir"] if over.get("readOnly") else ["memdir"]})
+    return progs
+
+
 def c14(prop, tier, seed, work):
     scs = [
         dict(name="ro", profile="ro", contents=["m1", "m2", "x1", "a1"], algs=["sha256"], depth=(30, 44), num=(25, 300),
              stores=["dir"], obs=["refs"], reconf=RECONF, nrepos=2),
+        dict(name="foreign", static_programs=foreign_programs, obs=[], focus={"C14F"}),
     ]
     return histories(prop, tier, seed, work, scs, "", "a history is non-trivial if it reconfigures the server (read-only / memory over directory / APIs off) after pushes and then sends write requests; distinct = distinct operation sequences",
                      {"Reconf"})
